@@ -1,0 +1,19 @@
+//go:build verif
+
+package linkedhashset
+
+import "github.com/emirpasic/gods/v2/lists/doublylinkedlist"
+
+// VerifTable returns the members of the hash table (unordered copy).
+func (set *Set[T]) VerifTable() []T {
+	out := make([]T, 0, len(set.table))
+	for k := range set.table {
+		out = append(out, k)
+	}
+	return out
+}
+
+// VerifOrdering returns the list that records the insertion order.
+func (set *Set[T]) VerifOrdering() *doublylinkedlist.List[T] {
+	return set.ordering
+}
